@@ -306,6 +306,13 @@ func (e *lenEval) stmts(list []ast.Stmt, into *linForm) (returned bool) {
 		case *ast.SwitchStmt:
 			// gateway union
 			tag, ok := e.operandName(st.Tag)
+			if be, isB := ast.Unparen(st.Tag).(*ast.BinaryExpr); !ok && isB && be.Op == token.AND {
+				if n, ok2 := e.operandName(be.X); ok2 {
+					if k, isK := c.exprConst(be.Y); isK {
+						tag, ok = fmt.Sprintf("%s&%#x", n, k), true
+					}
+				}
+			}
 			if !ok || st.Init != nil {
 				e.prob(st.Pos(), "unrecognised switch")
 				continue
@@ -361,7 +368,7 @@ func (c *Ctx) evalLen(fd *ast.FuncDecl) (*linForm, map[string]*linForm, []string
 func expectedLenTerm(k, field string) (f *linForm, exact bool, alt *linForm) {
 	f = newForm()
 	exact = true
-	bk := baseKind(k)
+	bk := strings.TrimSuffix(baseKind(k), "!amt")
 	switch bk {
 	case "u8":
 		f.K = 1
@@ -417,7 +424,11 @@ func expectedLenTerm(k, field string) (f *linForm, exact bool, alt *linForm) {
 	case "gw":
 		exact = false
 		// RFC 4025 / RFC 8777: type 1 = IPv4 (4 octets), 2 = IPv6 (16), 3 = wire-format name (text length + 1 for an unescaped name)
-		f.Atoms["switch(GatewayType){1=>4; 2=>16; 3=>len("+field+") + 1}"] = 1
+		sel := "GatewayType"
+		if strings.HasSuffix(k, "!amt") {
+			sel = "GatewayType&0x7f" // RFC 8777: the top bit is the discovery flag
+		}
+		f.Atoms["switch("+sel+"){1=>4; 2=>16; 3=>len("+field+") + 1}"] = 1
 	default:
 		return nil, false, nil
 	}
@@ -450,6 +461,9 @@ func (c *Ctx) checkLenForm(r *Report, rule string, t *rrType) {
 	type altT struct{ from, to *linForm }
 	var alts []altT
 	for i, k := range kinds {
+		if wf[i].Tag == "amtrelayhost" {
+			k += "!amt"
+		}
 		f, exact, alt := expectedLenTerm(k, wf[i].Name)
 		if f == nil {
 			r.undecided(rule, t.Name, pos, "no length term on file for kind %s", k)
